@@ -164,6 +164,63 @@ func (d *driver) do(k int, p *path.Path) int {
 	return row.ID
 }
 
+// sentinel fills the spare capacity of every array of the shared documents:
+// encoding/json leaves such capacity, and code that appends to a slice it took
+// from the document would write there.
+type sentinel struct{}
+
+const spare = 3
+
+func withSpare(x any) any {
+	switch x := x.(type) {
+	case []any:
+		out := make([]any, len(x), len(x)+spare)
+		for i, e := range x {
+			out[i] = withSpare(e)
+		}
+		full := out[:cap(out)]
+		for i := len(x); i < len(full); i++ {
+			full[i] = sentinel{}
+		}
+		return out
+	case map[string]any:
+		out := make(map[string]any, len(x))
+		for k, e := range x {
+			out[k] = withSpare(e)
+		}
+		return out
+	}
+	return x
+}
+
+// spareIntact reports whether no array's spare capacity was written.
+func spareIntact(x any) bool {
+	switch x := x.(type) {
+	case []any:
+		if cap(x) != len(x)+spare {
+			return false
+		}
+		full := x[:cap(x)]
+		for i := len(x); i < len(full); i++ {
+			if _, ok := full[i].(sentinel); !ok {
+				return false
+			}
+		}
+		for _, e := range x {
+			if !spareIntact(e) {
+				return false
+			}
+		}
+	case map[string]any:
+		for _, e := range x {
+			if !spareIntact(e) {
+				return false
+			}
+		}
+	}
+	return true
+}
+
 func writeNDJSON[T any](file string, rows []T) {
 	f, err := os.Create(file)
 	if err != nil {
@@ -191,7 +248,7 @@ func main() {
 		die("%v", err)
 	}
 	for _, v := range d.pool.Docs {
-		d.docs = append(d.docs, v.ToGo(false))
+		d.docs = append(d.docs, withSpare(v.ToGo(false)))
 	}
 	for _, vs := range d.pool.Vars {
 		m := exec.Vars{}
@@ -240,9 +297,66 @@ func main() {
 	for k := range d.calls {
 		d.calls[k].Solo = d.do(k, d.newPath(d.pool.Cases[d.caseOf[k]]))
 	}
-	// phase 2: concurrent calls on the shared objects
 	logs := make([][]Event, d.pool.Goroutines+2)
 	var wg sync.WaitGroup
+	// phase 2a: first-use bursts. For every (path, mode) a Path object nobody
+	// has touched yet is shared; all goroutines make the same call on it at
+	// the same moment, entry point after entry point (lazily initialised state
+	// in the object is written at first use).
+	firstOf := map[[3]int]int{} // (PI, lax, entry index) -> a call
+	for k, c := range d.calls {
+		lx := 0
+		if c.Lax {
+			lx = 1
+		}
+		for ei, n := range entryNames {
+			if n == c.Entry {
+				key := [3]int{c.PI, lx, ei}
+				if _, ok := firstOf[key]; !ok && !c.Silent {
+					firstOf[key] = k
+				}
+			}
+		}
+	}
+	var keys [][3]int
+	for key := range firstOf {
+		keys = append(keys, key)
+	}
+	sort.Slice(keys, func(i, j int) bool {
+		a, b := keys[i], keys[j]
+		// "string" first: printing is the most likely lazily cached operation
+		ea, eb := (a[2]+2)%len(entryNames), (b[2]+2)%len(entryNames)
+		if a[0] != b[0] {
+			return a[0] < b[0]
+		}
+		if a[1] != b[1] {
+			return a[1] < b[1]
+		}
+		return ea < eb
+	})
+	burstObj := map[[2]int]*path.Path{}
+	for _, key := range keys {
+		k := firstOf[key]
+		ok2 := [2]int{key[0], key[1]}
+		if _, ok := burstObj[ok2]; !ok {
+			burstObj[ok2] = d.newPath(d.pool.Cases[d.caseOf[k]])
+		}
+		obj := burstObj[ok2]
+		gate := make(chan struct{})
+		for g := 1; g <= d.pool.Goroutines; g++ {
+			wg.Add(1)
+			go func(g int) {
+				defer wg.Done()
+				<-gate
+				logs[g] = append(logs[g], Event{Seq: d.seq.Add(1), G: g, Ev: "inv", Call: k + 1})
+				out := d.do(k, obj)
+				logs[g] = append(logs[g], Event{Seq: d.seq.Add(1), G: g, Ev: "ret", Call: k + 1, Out: out})
+			}(g)
+		}
+		close(gate)
+		wg.Wait()
+	}
+	// phase 2b: concurrent random calls on the shared objects
 	start := make(chan struct{})
 	for g := 1; g <= d.pool.Goroutines; g++ {
 		wg.Add(1)
@@ -287,7 +401,7 @@ func main() {
 	}
 	sort.Slice(events, func(i, j int) bool { return events[i].Seq < events[j].Seq })
 	for i, x := range d.docs {
-		if !reflect.DeepEqual(x, pristineDocs[i]) {
+		if !reflect.DeepEqual(x, pristineDocs[i]) || !spareIntact(x) {
 			events = append(events, Event{G: 0, Ev: "mut", Call: i + 1})
 		}
 	}
